@@ -17,7 +17,7 @@ REAL_VS_STUB = {
     "real": ["stackscope (all of it)", "CPython compiler+interpreter of each leg", "contextlib"],
     "stub": ["generated programs", "shadow-reporting managers", "driver loop"],
 }
-RARE_PROBES = ["probes", "exception_path_exit", "exit_swallows", "enter_raises", "exit_raises"]
+RARE_PROBES = ["probes", "exception_path_exit", "exit_swallows", "enter_raises", "exit_raises", "hotloop_extractions"]
 LEGS = [
     {"name": "probe312", "python": "3.12", "quick": 4000, "thorough": 120000, "quick_s": 50, "thorough_s": 420},
     {"name": "probe311", "python": "3.11", "quick": 2000, "thorough": 50000, "quick_s": 40, "thorough_s": 300},
@@ -26,5 +26,107 @@ LEGS = [
 ]
 
 
+# Hot loops: a generator, coroutine or async generator that is *executing* goes round a loop a
+# few hundred to a few thousand times and is extracted from a callee every time.  The
+# interpreter's adaptive instruction counters take every value on the way (finding F26: a
+# particular counter value made `ag_await` of an executing async generator return garbage).
+LEGS.append({"name": "hotloop312", "python": "3.12", "quick": 160, "thorough": 4000, "quick_s": 40, "thorough_s": 300, "run_timeout": 120, "crash_is_violation": True, "params": {"mode": "hotloop"}})
+LEGS.append({"name": "hotloop311", "python": "3.11", "quick": 160, "thorough": 4000, "quick_s": 40, "thorough_s": 300, "run_timeout": 120, "crash_is_violation": True, "params": {"mode": "hotloop"}})
+LEGS.append({"name": "hotloop39", "python": "3.9", "quick": 80, "thorough": 2000, "quick_s": 30, "thorough_s": 200, "run_timeout": 120, "crash_is_violation": True, "params": {"mode": "hotloop"}})
+
+
+def run_hotloop(ctx):
+    import sys
+    import types
+    import warnings
+    import stackscope
+    from ..kernel import Violation
+
+    t = ctx.tape
+    kind = ("agen", "coro", "gen")[t.weighted([3, 1, 1])]
+    n = 200 + t.choose(2800)
+    body = ("continue", "pass", "x = probe(root, i)")[t.choose(3)]
+    via = t.choose(3)  # where the probe is called from: __exit__, __enter__, the loop body
+    ctx.case = {"kind": kind, "iterations": n, "body": body, "probe_from": via}
+    state = {"n": 0, "bad": None}
+    box = {}
+
+    def probe(*a):
+        root = box["root"]
+        with warnings.catch_warnings():
+            warnings.simplefilter("ignore")
+            st = stackscope.extract(root, with_contexts=False)
+        state["n"] += 1
+        if state["bad"] is None:
+            # ground truth: the frames from the root's own frame to this one
+            truth = []
+            f = sys._getframe(0)
+            while f is not None:
+                truth.append(f)
+                if f is box["frame"]:
+                    break
+                f = f.f_back
+            truth.reverse()
+            got = [x.pyframe for x in st.frames]
+            if st.error is not None or len(got) != len(truth) or any(a is not b for a, b in zip(got, truth)):
+                state["bad"] = "iteration %d: extract(running %s) gave frames %r (error %r), the running stack from its frame is %r" % (
+                    state["n"], kind, [x.f_code.co_name for x in got], st.error, [x.f_code.co_name for x in truth])
+        return None
+
+    class M(object):
+        def __enter__(self):
+            if via == 1:
+                probe()
+            return self
+
+        def __exit__(self, *a):
+            if via == 0:
+                probe()
+            return False
+
+    ns = {"M": M, "probe": probe, "box": box, "sys": sys, "types": types}
+    head = {"agen": "async def root():", "coro": "async def root():", "gen": "def root():"}[kind]
+    src = [head, "    box['frame'] = sys._getframe(0)", "    for i in range(%d):" % n, "        with M() as x:"]
+    if via == 2 or body.startswith("x ="):
+        src.append("            probe()")
+    src.append("            " + ("continue" if body == "continue" else "pass"))
+    if kind in ("agen", "gen"):
+        src.append("    yield 1")
+    exec(compile("\n".join(src) + "\n", "<hotloop>", "exec"), ns)
+    root = ns["root"]()
+    box["root"] = root
+    ctx.in_sut(True)
+    try:
+        if kind == "agen":
+            try:
+                root.asend(None).send(None)
+            except StopIteration:
+                pass
+        elif kind == "coro":
+            try:
+                root.send(None)
+            except StopIteration:
+                pass
+        else:
+            next(root)
+    finally:
+        ctx.in_sut(False)
+        try:
+            if kind == "agen":
+                root.aclose().send(None)
+            else:
+                root.close()
+        except BaseException:
+            pass
+    ctx.stat("hotloop_extractions", state["n"])
+    ctx.cover(("hotloop", kind, via, body[:4], n // 500))
+    ctx.log("hot", kind, n, state["n"], state["bad"] is None)
+    if state["bad"]:
+        raise Violation("c02_running_root_frames", state["bad"], ctx.case)
+    ctx.sample = ctx.case
+
+
 def run(ctx):
+    if ctx.params.get("mode") == "hotloop":
+        return run_hotloop(ctx)
     progworld.run_program(ctx, ["c02"], force={"probe": True}, suspend=False)
